@@ -365,3 +365,148 @@ Definition agree (c : c09case) : bool :=
 
 Definition ok (c : c09case) : bool :=
   match c with CMet m => Mcmc.ok m | CNuts n => nok n end.
+
+(** ---- histories of calls in ONE process (wave 3) ----------------------------------------------
+    A process makes several [nuts()] / [metropolis()] calls one after the other: on the same target
+    callable or on different ones, with equal or different starts, seeds and settings, with a given
+    step size or a searched one.  The property says each chain is a function of its own arguments
+    and seed.  In the model that is the absence of any state between calls: the module has no
+    mutable global, the generator is built from the seed inside the call.  It is made explicit here
+    by threading through the calls the most a process could remember (every earlier call with its
+    result, [pstate]) and NOT reading it. *)
+
+Inductive mres :=
+| MRMet (r : Mcmc.result)
+| MRNuts (r : nres N idraw).
+
+(** the model's answer to one call: a function of the call's own arguments, stream and oracles *)
+Definition model_result (c : c09case) : mres :=
+  match c with CMet m => MRMet (Mcmc.model_of m) | CNuts n => MRNuts (nuts_of n) end.
+
+Definition pstate := list (c09case * mres).
+
+(** one call in a process that has been through [prev]: the result is that of the call alone *)
+Definition call_in (prev : pstate) (c : c09case) : mres * pstate :=
+  let r := model_result c in (r, prev ++ [(c, r)]).
+
+Fixpoint history_results (prev : pstate) (h : list c09case) : list mres :=
+  match h with
+  | [] => []
+  | c :: r => let '(res, st) := call_in prev c in res :: history_results st r
+  end.
+
+(** [r] is what the call recorded in [c] returned (bit for bit / id for id) *)
+Definition result_agrees (r : mres) (c : c09case) : bool :=
+  match r, c with
+  | MRMet m, CMet k => res_eqb m (c_impl k)
+  | MRNuts NBadInit, CNuts k => match nc_impl k with NIBadInit => true | _ => false end
+  | MRNuts (NChain l []), CNuts k => match nc_impl k with NIChain l' => ids_eqb l l' | _ => false end
+  | _, _ => false
+  end.
+
+(** the call's inputs: the record with the observed result erased *)
+Definition inputs (c : c09case) : c09case :=
+  match c with
+  | CMet m => CMet {| c_n := c_n m; c_warmup := c_warmup m; c_start := c_start m; c_sigma_in := c_sigma_in m;
+                      c_stream := c_stream m; c_target := c_target m; c_exp := c_exp m;
+                      c_out_f64 := true; c_impl := IBadInit |}
+  | CNuts n => CNuts {| nc_iter := nc_iter n; nc_maxdepth := nc_maxdepth n; nc_ninit := nc_ninit n; nc_p0 := nc_p0 n;
+                        nc_tinf := nc_tinf n; nc_stream := nc_stream n; nc_base := nc_base n; nc_uturn := nc_uturn n;
+                        nc_slice := nc_slice n; nc_eps := nc_eps n; nc_good := []; nc_svok := [];
+                        nc_leaves := []; nc_nodes := []; nc_impl := NIBadInit |}
+  end.
+
+(** one call of a history, recorded twice with one interning of positions / momenta / step sizes:
+    [hc_fresh] = the call made as the only call ever (a new image of the module, new callables, new
+    argument objects): its arguments, the generator draws it made, its oracle tables, its result;
+    [hc_here] = the same call where it stands in the history (shared callables and objects, the
+    module as the earlier calls left it): what it drew, evaluated and returned there. *)
+Record hcall := { hc_fresh : c09case; hc_here : c09case }.
+
+Definition draw_eqb (a b : Mcmc.draw) : bool :=
+  match a, b with
+  | DN x, DN y => veqb x y
+  | DU x, DU y => feqb x y
+  | _, _ => false
+  end.
+
+Definition idraw_eqb (a b : idraw) : bool :=
+  match a, b with
+  | NM x, NM y => N.eqb x y
+  | NE x, NE y => N.eqb x y
+  | NU x, NU y => feqb x y
+  | _, _ => false
+  end.
+
+Fixpoint list_eqb {A} (e : A -> A -> bool) (a b : list A) : bool :=
+  match a, b with
+  | [], [] => true
+  | x :: a', y :: b' => e x y && list_eqb e a' b'
+  | _, _ => false
+  end.
+
+Definition num_eqb (a b : num) : bool :=
+  match a, b with
+  | NF x, NF y => feqb x y
+  | NI x, NI y => Z.eqb x y
+  | _, _ => false
+  end.
+
+(** same arguments *)
+Definition same_args (a b : c09case) : bool :=
+  match a, b with
+  | CMet x, CMet y =>
+      (c_n x =? c_n y) && (c_warmup x =? c_warmup y) && list_eqb num_eqb (c_start x) (c_start y)
+      && list_eqb num_eqb (c_sigma_in x) (c_sigma_in y)
+  | CNuts x, CNuts y =>
+      (nc_iter x =? nc_iter y) && (nc_maxdepth x =? nc_maxdepth y) && N.eqb (nc_p0 x) (nc_p0 y)
+  | _, _ => false
+  end.
+
+(** the call drew the same numbers from its generator, in the same order, and saw the same
+    oracle values (Metropolis: target and exp at the same points in the same order; NUTS: as many
+    momentum draws in the initial step-size search, the same step size in every iteration) *)
+Definition same_draws (a b : c09case) : bool :=
+  match a, b with
+  | CMet x, CMet y =>
+      list_eqb draw_eqb (c_stream x) (c_stream y)
+      && list_eqb (fun p q => veqb (fst p) (fst q) && feqb (snd p) (snd q)) (c_target x) (c_target y)
+      && list_eqb (fun p q => feqb (fst p) (fst q) && feqb (snd p) (snd q)) (c_exp x) (c_exp y)
+  | CNuts x, CNuts y =>
+      list_eqb idraw_eqb (nc_stream x) (nc_stream y) && (nc_ninit x =? nc_ninit y)
+      && ids_eqb (nc_eps x) (nc_eps y) && Bool.eqb (nc_tinf x) (nc_tinf y)
+  | _, _ => false
+  end.
+
+Fixpoint all2 {A B} (f : A -> B -> bool) (l : list A) (m : list B) : bool :=
+  match l, m with
+  | [], [] => true
+  | a :: l', b :: m' => f a b && all2 f l' m'
+  | _, _ => false
+  end.
+
+(** the history corresponds to the model: the result of every call where it stands is the model's
+    result for that call's fresh record (computed through [history_results], i.e. after the earlier
+    calls), and both records of every call are runs of the model on their own *)
+Definition hagree (h : list hcall) : bool :=
+  all2 result_agrees (history_results [] (map hc_fresh h)) (map hc_here h)
+  && forallb (fun c => agree (hc_fresh c) && agree (hc_here c)) h.
+
+(** the property on a history: every call, alone and where it stands, satisfies the single-call
+    property; where it stands it has the arguments of, drew exactly what, and returned exactly what
+    the call alone did *)
+Definition hok (h : list hcall) : bool :=
+  hagree h
+  && forallb (fun c => ok (hc_fresh c) && ok (hc_here c)
+                       && same_args (hc_fresh c) (hc_here c) && same_draws (hc_fresh c) (hc_here c)) h.
+
+(** ---- the case type of the check: one call, or a history of calls ---- *)
+Inductive c09top :=
+| Single (c : c09case)
+| History (h : list hcall).
+
+Definition agree_t (c : c09top) : bool :=
+  match c with Single s => agree s | History h => hagree h end.
+
+Definition ok_t (c : c09top) : bool :=
+  match c with Single s => ok s | History h => hok h end.
